@@ -129,6 +129,9 @@ class Endpoint:
             data = b''
             for _ in range(10000):
                 amount = self.out_rng.choice([1, 2, 3, 8, 9, 10, 17, 100, 16384, 16393])
+                left = len(getattr(self.conn, '_data_to_send', b''))
+                if left and self.out_rng.random() < 0.35:          # the boundary: exactly what is buffered, one less, one more
+                    amount = max(1, left + self.out_rng.choice([0, 0, -1, 1]))
                 piece = self.conn.data_to_send(amount)
                 if len(piece) > amount:
                     data += b'<data_to_send returned more than asked for>'
@@ -318,10 +321,11 @@ class Session:
 
     want_sizes = False
 
-    def _finish(self, x, res, evs, with_q=True):
+    def _finish(self, x, res, evs, with_q=True, nf=False):
         ep = self.eps[x]
         try:
-            data, frames = ep.take_output()
+            # nf: the application does not take the output after this step; it stays in the connection's buffer
+            data, frames = (b'', []) if nf else ep.take_output()
         except BaseException as e:   # harness-side failure is reported as an observation
             data, frames = b'', [{'t': 'HARNESS-ERROR', 'why': repr(e)}]
         if self.pair:
@@ -404,7 +408,7 @@ class Session:
                     res['v'] = -1
             if s['c']['op'] == 'upg' and self.pair and ep.upgrade_header is not None:
                 self.eps[self.other(x)].peer_upgrade_header = ep.upgrade_header
-            return self._finish(x, res, [])
+            return self._finish(x, res, [], nf=bool(s.get('nf')))
         if a == 'recv':
             data = b''
             if x == 's' and not ep.adv_preface_sent and not s.get('nopre'):
@@ -412,15 +416,15 @@ class Session:
                 ep.adv_preface_sent = True
             for f in s['fs']:
                 data += ep.adversary_frame(f)
-            return self._receive(x, data)
+            return self._receive(x, data, nf=bool(s.get('nf')))
         if a == 'dlv':
             k = s['k']
             data = b''.join(self.chan[x][:k])
             del self.chan[x][:k]
-            return self._receive(x, data)
+            return self._receive(x, data, nf=bool(s.get('nf')))
         raise ValueError('unknown step kind ' + a)
 
-    def _receive(self, x, data):
+    def _receive(self, x, data, nf=False):
         ep = self.eps[x]
         try:
             evs = []
@@ -436,7 +440,7 @@ class Session:
             res = absn.exc_rec(e)
             aevs = []
             self.text = (str(e), '')
-        return self._finish(x, res, aevs)
+        return self._finish(x, res, aevs, nf=nf)
 
     def _pieces(self, data):
         """The whole input at once, or (chunked replay) a random partition of it: byte by byte, or cut at up to
